@@ -243,6 +243,37 @@ Theorem C11_sample_model_satisfies_checker : forall k fs ds l,
 Proof. exact (fun k fs ds l Hk Hd => sample_passes_checker k fs Hk ds l Hd). Qed.
 Print Assumptions C11_sample_model_satisfies_checker.
 
+(* ---- contexts: the models of head, tail, decimate, cat -n/-g, filter's emit decision, ... are functions of the record
+   stream alone, so whatever they count they count ARRIVALS: two streams with the same records and arbitrary, different
+   NR/FNR/FILENAME contexts give the same output.  (The correspondence check feeds the real verbs records whose NR is
+   not the arrival index and expects exactly this.) *)
+Theorem C11_verb_models_oblivious_to_context :
+  (forall n g, oblivious (on_records (head n g)))
+  /\ (forall n plus fs, oblivious (on_records (tail n plus fs)))
+  /\ (forall n b e fs, oblivious (on_records (decimate n b e fs)))
+  /\ (forall name g, oblivious (on_records (cat name g)))
+  /\ (forall isf inv vs, oblivious (on_records (filter_run isf inv vs)))
+  /\ oblivious (on_records tac) /\ (forall fs, oblivious (on_records (group_by fs))) /\ oblivious (on_records group_like)
+  /\ oblivious (on_records uniq_a) /\ oblivious (on_records skip_trivial)
+  /\ (forall k fs ds, oblivious (on_records (sample k fs ds))).
+Proof.
+  exact (conj (fun n g => on_records_oblivious _) (conj (fun n plus fs => on_records_oblivious _)
+        (conj (fun n b e fs => on_records_oblivious _) (conj (fun name g => on_records_oblivious _)
+        (conj (fun isf inv vs => on_records_oblivious _) (conj (on_records_oblivious _) (conj (fun fs => on_records_oblivious _)
+        (conj (on_records_oblivious _) (conj (on_records_oblivious _) (conj (on_records_oblivious _) (fun k fs ds => on_records_oblivious _))))))))))).
+Qed.
+Print Assumptions C11_verb_models_oblivious_to_context.
+
+(* `tail -n +N` skips the first N-1 records THAT ARRIVE, whatever NR they carry -- and that differs from selecting by NR
+   as soon as an upstream verb has dropped records (witness: the survivors of a filter keeping NR 1, 3, 5) *)
+Theorem C11_tail_plus_counts_arrivals_not_NR :
+  (forall n (s : cstream), on_records (tail n true []) s = skipn (Z.to_nat (Z.max (n - 1) 0)) (map fst s))
+  /\ exists s, on_records (tail 3 true []) s <> tail_plus_by_nr 3 s.
+Proof.
+  exact (conj tail_plus_counts_arrivals tail_plus_differs_from_by_nr).
+Qed.
+Print Assumptions C11_tail_plus_counts_arrivals_not_NR.
+
 (* ---- non-vacuity: concrete streams meeting the hypotheses, with non-trivial outcomes *)
 Definition ex_stream : list record :=
   [ [(B "a", B "pan"); (B "b", B "1")]; [(B "a", B "eks"); (B "b", B "2")]; [(B "b", B "3")];
